@@ -139,6 +139,8 @@ def pipeline(model, upto="rho"):
     sc = Scenario()
     if model.get("repeat"):
         sc.add("repeat 1")        # every prepare()/compute() is issued twice (must be idempotent)
+    if model.get("early"):
+        sc.add("early %s" % fnum(model["beta"]))   # Symmetrizer, StatesClassification, Hamiltonian, DensityMatrix are constructed before IndexHamiltonian::prepare()
     lattice_lines(sc, model)
     sc.add("terms", "terms")
     sc.add("index %d" % model.get("order_spins", 0))
